@@ -19,7 +19,7 @@ RULE = (
 ASSUMPTIONS = [
     "n = max(1, ceil(D/dt)) with D/dt taken as an integer when within 1e-9 of one (the property's 'up to rounding error')",
     "bounds: inflow histories of length <= 4 (quick) / 5 (thorough) over 3 levels; <= 3 compartments per duration group; <= 2 populations",
-    "y-factors of the timed parameter are 1 (calibration factors on durations are outside this check)",
+    "calibration factors on the timed parameter: 4 (population, all-population) factor pairs on a ninth of the histories (quick) and on the structure family",
 ]
 CASE_TIMEOUT = 60
 LEVELS = [0.0, 30.0, 70.0]
@@ -91,6 +91,30 @@ def cases(tier):
         for lab, D in dvariants(dt, tier):
             for h in histories(tier):
                 yield hist_spec(dt, D, h, 0.3, 60.0, dfn=True)
+    # calibrated durations: the maximum stay is the parameter's VALUE (databook entry x population factor x all-population factor)
+    import copy as _copy
+
+    for dt in dts[:2]:
+        for lab, D in dvariants(dt, tier):
+            for yf, myf in ((2.0, None), (None, 0.5), (0.5, 3.0), (1.5, None)):
+                for h in list(histories(tier))[:: 9 if tier == "quick" else 3]:
+                    for dfn in (False, True):
+                        sp = hist_spec(dt, D, h, 0.3, 60.0, dfn=dfn)
+                        sp["pars"][0].update(yf=yf, myf=myf)
+                        f = (yf or 1.0) * (myf or 1.0)
+                        n = max(1, refsim.nsteps(D * f / dt))
+                        sp["sim"][1] = sp["sim"][0] + (len(h) + n + 2) * dt
+                        sp["timed"]["factors"] = [yf, myf]
+                        yield sp
+    for spec in simspace.timed(tier):
+        if spec["timed"]["extra"] == 0.3 and spec["timed"]["ainit"] == 60.0 and spec["timed"]["D"] in ("3dt", "2.5dt"):
+            for yf, myf in ((2.0, None), (0.5, 1.5)):
+                s2 = _copy.deepcopy(spec)
+                for q in s2["pars"]:
+                    if q.get("timed"):
+                        q.update(yf=yf, myf=myf)
+                s2["timed"]["factors"] = [yf, myf]
+                yield s2
     yield from simspace.timed(tier)
     # people who start the run inside a junction that belongs to the duration group (the initial flush spreads them like any initial occupants)
     import copy
